@@ -17,6 +17,8 @@
 //	long      containers holding more real elements than the pre-sizing cap max(1024, MaxInitLen), honest or
 //	          hostile claimed length, into fast-path and reflection slice / map destinations (zero-size element types too)
 //	bigscalar one string of 2..6 MB with its honest length, over []byte and every io.Reader transport
+//	symbols   binc: a symbol definition of 1..64 KiB (1- / 2-byte id) followed by up to 300000 references, into
+//	          []string / []interface{} / [][]byte / map keys: allocation must stay linear in the input
 //	rand      random bytes, 0..64 long
 //	prefix    EVERY 1- and 2-byte input
 //
@@ -64,10 +66,11 @@ type Job struct {
 	F    int     `json:"f"`
 	D    int     `json:"d"`
 	O    hx.Opts `json:"o"`
-	X    string  `json:"x,omitempty"` // input, hex (followed by XR copies of the byte XB and by XS, for long inputs)
+	X    string  `json:"x,omitempty"` // input, hex (followed by XR copies of the unit XU (hex) and by XS, for long inputs)
 	XR   int     `json:"xr,omitempty"`
-	XB   int     `json:"xb,omitempty"`
+	XU   string  `json:"xu,omitempty"`
 	XS   string  `json:"xs,omitempty"`
+	NV   int     `json:"nv,omitempty"` // number of values in the input when known by construction (0: unknown)
 	Kind string  `json:"k"`
 	Ex   int     `json:"e"` // -1: single input; 0..255: every input that starts with this byte and is 1 or 2 bytes long
 }
@@ -94,14 +97,15 @@ type Result struct {
 func (j Job) input() []byte {
 	in, _ := hex.DecodeString(j.X)
 	if j.XR > 0 {
-		in = append(in, bytes.Repeat([]byte{byte(j.XB)}, j.XR)...)
+		u, _ := hex.DecodeString(j.XU)
+		in = append(in, bytes.Repeat(u, j.XR)...)
 		suf, _ := hex.DecodeString(j.XS)
 		in = append(in, suf...)
 	}
 	return in
 }
 
-func (j Job) inputLen() int { return len(j.X)/2 + j.XR + len(j.XS)/2 }
+func (j Job) inputLen() int { return len(j.X)/2 + j.XR*(len(j.XU)/2) + len(j.XS)/2 }
 
 // ---------------- worker ----------------
 
@@ -134,10 +138,9 @@ func decodeOnce(f hx.Fmt, o hx.Opts, h codec.Handle, t reflect.Type, in []byte) 
 	return codec.VerifErrClass(err), d.NumBytesRead(), alloc, dur, false
 }
 
-func judgeOne(f hx.Fmt, o hx.Opts, st hx.TypeStats, t reflect.Type, h func() codec.Handle, in []byte, res *Result) (cls, nread int) {
+func judgeOne(f hx.Fmt, o hx.Opts, st hx.TypeStats, t reflect.Type, h func() codec.Handle, in []byte, nv int, res *Result) (cls, nread int) {
 	cls, nread, alloc, dur, esc := decodeOnce(f, o, h(), t, in)
-	k0, k1 := hx.AllocBound(st, o, len(in))
-	lim := k0 + k1*uint64(len(in))
+	lim := hx.AllocBoundN(st, o, len(in), nv)
 	tl := timeK2 + timeK3*time.Duration(len(in))
 	if alloc > (64<<20) && alloc <= lim {
 		tl += time.Duration(alloc/(1<<20)) * 2 * time.Millisecond // zeroing what the caps permit
@@ -215,13 +218,13 @@ func workerMain(path string, from int) {
 		var res Result
 		if j.Ex < 0 {
 			in := j.input()
-			res.Cls, res.Nread = judgeOne(f, j.O, st, t, func() codec.Handle { return hx.Handle(f, j.O) }, in, &res)
+			res.Cls, res.Nread = judgeOne(f, j.O, st, t, func() codec.Handle { return hx.Handle(f, j.O) }, in, j.NV, &res)
 		} else {
 			h := hx.Handle(f, j.O)
 			res.Hist = map[int]int{}
 			var obs strings.Builder
 			run := func(in []byte) {
-				c, n := judgeOne(f, j.O, st, t, func() codec.Handle { return h }, in, &res)
+				c, n := judgeOne(f, j.O, st, t, func() codec.Handle { return h }, in, 0, &res)
 				res.Hist[c]++
 				fmt.Fprintf(&obs, "%d/%d ", c, n)
 			}
@@ -520,7 +523,66 @@ func bigScalar(c *ctx, n int) {
 				case 3:
 					o.IO, o.RBS, o.Chunk = true, 4096, 0
 				}
-				c.jobs = append(c.jobs, Job{F: int(f), D: di, O: o, X: hex.EncodeToString(pre), XR: size, XB: 'a', XS: hex.EncodeToString(suf), Kind: "bigscalar", Ex: -1})
+				c.jobs = append(c.jobs, Job{F: int(f), D: di, O: o, X: hex.EncodeToString(pre), XR: size, XU: "61", XS: hex.EncodeToString(suf), Kind: "bigscalar", Ex: -1, NV: 3})
+			}
+		}
+	}
+}
+
+// symbols: binc symbol definitions (1..64 KiB, 1- and 2-byte ids) followed by many references to them, into
+// destinations that keep every element: a reference costs 2-3 bytes on the wire, so the decoder may not copy
+// the symbol once per reference (allocation quadratic in the input length)
+func symbolStream(c *ctx, n int) {
+	f := hx.Binc
+	for _, name := range []string{"[]string", "[]iface", "map[string]int-keys", "[][]byte"} {
+		for q := 0; q < n; q++ {
+			for _, L := range []int{1 << 10, 8 << 10, 64 << 10} {
+				wide := c.r.Chance(1, 2) // 2-byte symbol id
+				id := 1 + c.r.Intn(200)
+				if wide {
+					id = 256 + c.r.Intn(60000)
+				}
+				// definition: bd = 0xb0 | (wide ? 8 : 0) | 4 | length width code; id; length; bytes
+				lw, lb := byte(1), []byte{byte(L >> 8), byte(L)}
+				if L > 65535 {
+					lw, lb = 2, []byte{byte(L >> 24), byte(L >> 16), byte(L >> 8), byte(L)}
+				}
+				idb := []byte{byte(id)}
+				wb := byte(0)
+				if wide {
+					idb, wb = []byte{byte(id >> 8), byte(id)}, 8
+				}
+				def := append(append([]byte{0xb0 | wb | 4 | lw}, idb...), lb...)
+				def = append(def, bytes.Repeat([]byte{'s'}, L)...)
+				ref := append([]byte{0xb0 | wb}, idb...)
+				// enough references for symbolLen * refs to exceed the bound several times if each is copied
+				R := (600 << 20) / L
+				if R > 300000 {
+					R = 300000
+				}
+				dn := name
+				var pre []byte
+				unit := ref
+				nv := R + 1
+				if name == "map[string]int-keys" {
+					// a map whose keys are the references: {sym: 1, sym: 1, ...}
+					dn = "map[string]int"
+					pre = hx.HeadBytes(f, hx.NMap, uint64(R+1), 8, 0)
+					pre = append(append(pre, def...), hx.One(f)...)
+					unit = append(append([]byte{}, ref...), hx.One(f)...)
+					nv = 2*R + 2
+				} else {
+					pre = append(hx.HeadBytes(f, hx.NArr, uint64(R+1), 8, 0), def...)
+				}
+				_, di := hx.DestByName(dn)
+				o := hx.Opts{MaxInitLen: c.r.PickInt(0, 0, 16, -1)}
+				switch c.r.Intn(3) {
+				case 1:
+					o.IO, o.RBS = true, 0
+				case 2:
+					o.IO, o.RBS = true, 4096
+				}
+				c.jobs = append(c.jobs, Job{F: int(f), D: di, O: o, X: hex.EncodeToString(pre), XR: R, XU: hex.EncodeToString(unit), Kind: "symbols", Ex: -1, NV: nv})
 			}
 		}
 	}
@@ -759,6 +821,7 @@ func main() {
 	nPrefix := flag.Int("prefix", 3, "destinations for the exhaustive 1- and 2-byte prefix stream (0: skip)")
 	nLong := flag.Int("long", 1, "long-container documents per (format, destination)")
 	nBig := flag.Int("big", 1, "multi-MB scalars per (format, destination)")
+	nSym := flag.Int("symbols", 1, "binc symbol definition + references documents per (destination, symbol length)")
 	workers := flag.Int("workers", 8, "worker subprocesses")
 	maxModel := flag.Int("model", 1500, "model cases at most")
 	worker := flag.String("worker", "", "(internal) job file")
@@ -779,6 +842,7 @@ func main() {
 	randomBytes(c, *nRand)
 	longStream(c, *nLong)
 	bigScalar(c, *nBig)
+	symbolStream(c, *nSym)
 	// shuffle the single jobs so that shards are balanced, keep the blocks at the end spread round-robin
 	for i := len(c.jobs) - 1; i > 0; i-- {
 		k := c.r.Intn(i + 1)
@@ -867,7 +931,10 @@ func main() {
 			cj["input_len"] = len(j.X) / 2
 		}
 		if j.XR > 0 {
-			cj["input"] = fmt.Sprintf("%s + %d x %02x + %s", j.X, j.XR, j.XB, j.XS)
+			cj["input"] = fmt.Sprintf("%s + %d x %s + %s", j.X, j.XR, j.XU, j.XS)
+			if len(j.X) > 80 {
+				cj["input"] = fmt.Sprintf("%s...(%d bytes) + %d x %s + %s", j.X[:80], len(j.X)/2, j.XR, j.XU, j.XS)
+			}
 			cj["input_len"] = j.inputLen()
 		}
 		switch {
@@ -904,8 +971,7 @@ func main() {
 				}
 				sum.Count(j.Kind+"."+f.String(), key)
 				c.modelCase(j, in, res.Cls, res.Nread)
-				k0, k1 := hx.AllocBound(hx.StatsOf(d.T), j.O, len(in))
-				if ratio := float64(res.Alloc) / float64(k0+k1*uint64(len(in))); ratio > maxAllocRatio {
+				if ratio := float64(res.Alloc) / float64(hx.AllocBoundN(hx.StatsOf(d.T), j.O, len(in), j.NV)); ratio > maxAllocRatio {
 					maxAllocRatio = ratio
 				}
 				if res.Ns > maxNs {
